@@ -32,6 +32,18 @@ CLAIMS.update({
         text="For all 2^80 path_open flag words (dirflags, oflags, fdflags, rights) and all 2^32 Oflag words, what a read-only mount forwards to the wrapped file system contains none of "
              "O_WRONLY|O_RDWR|O_CREAT|O_TRUNC or the open is refused; every mutating FS/File method of ReadFS, readFile and AdaptFS fails without reaching the wrapped object (recording stub). "
              "What the kernel does with the remaining flags is outside the claim."),
+    "C10": dict(level="model_checking", engine="gosym", technique=E1_TECH, design_ref="DESIGN.md §5 C10",
+        text="Sequential refinement of an atomic name registry: every history of 0..3 instantiations over names {anonymous, a, b} (duplicates included) followed by every pair of operations out of "
+             "{instantiate, close an instance with any exit code, close the store, register function types} is executed on the real Store/ModuleInstance code; after each step lookups equal a ghost map, "
+             "the module list is doubly linked and holds exactly the open instances, failed duplicate instantiation leaves the owner registered, close is idempotent with exactly one notification, "
+             "and every entry point after store close returns an error (no Go panic). Interleavings of goroutines inside one operation are outside this claim (operations are atomic under Store.mux)."),
+    "C12": dict(level="model_checking", engine="gosym", technique=E1_TECH, design_ref="DESIGN.md §5 C12",
+        text="For every declared (min, optional max) and every configured limit <= 65536, newMemorySizer+Memory.Validate accept or reject identically with memoryCapacityFromMax on or off, with equal min/max and min <= cap <= max <= limit. "
+             "Caches, listeners and allocators are not yet covered by this check (see evidence)."),
+    "C19": dict(level="model_checking", engine="gosym", technique=E1_TECH, design_ref="DESIGN.md §5 C19",
+        text="From a module configuration built by 0..3 WithEnv calls (real append capacities via a model of runtime.growslice), two sibling derivations and one grandchild derivation by arbitrary With... calls "
+             "(symbolic strings, keys colliding or not) leave parent and earlier child deeply unchanged (backing arrays compared); same for FSConfig mounts (slices, map, preopens copies) and every RuntimeConfig With.... "
+             "Data races between goroutines are outside the claim."),
 })
 
 NOT_APPLICABLE = {
